@@ -37,14 +37,15 @@ ASSUMPTIONS = ["PTF routes: pore volume comes from the soil file (GPV/100); FC <
                "HYPAR.TRU values are two-digit integers (checked by the translator); FELDW != 0 (follows from the generated check)",
                "texture table rows whose field capacity exceeds the pore volume are a recorded finding (F13, listed by class)",
                "return to a level is proved and observed between days after the first groundwater change; relative to the initial state it is a recorded finding (F7)",
-               "table route with stones in the top horizon: the threshold is not scaled (recorded finding); the theorem is for a stone-free top horizon"]
+               "the distinct (texture, stone) top horizons of the runs include the former counterexample ULS / 30 % stones (soil T5), judged by the normal oracle"]
 LEVEL_TEXT = ("Coq proofs over the reals for the four transfer functions on the whole domain, the explicit route, stone scaling, "
               "the threshold, the groundwater adjustment; generated obligation over the shipped tables for every class "
               "(vm_compute + soundness lemma for all real Corg/level/stone values); the same Gallina definitions run on binary64 "
               "and are compared bit for bit with the Go kernels and with whole runs; the property is evaluated on the real code.")
 LEVEL_NOTE = ("Trusted: Coq kernel/vm_compute, Coq-Interval, Reals axioms of the standard library, primitive floats. Findings on the "
               "unchanged tree: F13 (listed table classes with FC > PS), F7 (initial state differs from the state after returning to "
-              "the initial level), threshold not scaled by the stone factor on the table route.")
+              "the initial level). The threshold not scaled by the stone factor on the table route (found here) was repaired in /repo d7a6e7d; "
+              "the model follows the repaired code and the theorem covers every stone fraction in [0,1).")
 TECHNIQUE = "Coq proof (lra/nra, Coq-Interval bisection, vm_compute over generated tables) + bit-exact kernel and trace correspondence + oracle"
 
 KNOWN_FILE = os.path.join(VERIF, "lib", "props", "c15_known_classes.json")
@@ -131,14 +132,15 @@ Theorem C15_table_ordered : forall t ld (grw c s : R),
   In t both -> (1 <= ld <= 5)%Z -> 0 <= s < 1 ->
   is_bad known_bad (t, ld, corg_class c, gw_class grw) = false ->
   exists fk nfk pv, triple_of hypar_rows t ld = Some (fk, nfk, pv) /\\
-    ordered_lpar (route_table (hydro t fk nfk pv grw c) s).
+    ordered_lpar (route_table (hydro t fk nfk pv grw c s) s).
 Proof. exact (table_check_ordered _ _ _ tables_ok). Qed.
 
-(* the threshold Hydro computes for the first horizon lies strictly between WP and FC of that horizon (no stones) *)
-Theorem C15_table_wred_between : forall t ld (grw c : R),
-  In t both -> (1 <= ld <= 5)%Z ->
+(* the threshold Hydro computes for the first horizon lies strictly between WMIN and W of its layers, for every stone fraction *)
+Theorem C15_table_wred_between : forall t ld (grw c s : R),
+  In t both -> (1 <= ld <= 5)%Z -> 0 <= s < 1 ->
   exists fk nfk pv, triple_of hypar_rows t ld = Some (fk, nfk, pv) /\\
-    let h := hydro t fk nfk pv grw c in ho_lim h < ho_wred h < ho_feldw h.
+    let h := hydro t fk nfk pv grw c s in
+    let p := route_table h s in l_wmin p < ho_wred h < l_w p.
 Proof. exact (table_check_wred _ _ _ tables_ok). Qed.
 
 Definition stale := Eval vm_compute in length (stale_bad hypar_rows known_bad).
@@ -248,8 +250,8 @@ def correspond(ctx):
     c.bump("calcWRed", len(wr))
     # --- Hydro
     hy = [x for x in cases if x["k"] == "hydro"]
-    _eval(ctx, c, "Cases_hydro", "texture * Z * float * float * (float * float * float * float * float)", "hydro_check hypar_rows",
-          ["(%s%%char, %d%%Z, %s, %s, (%s, %s, %s, %s, %s))" % (_tex(x["tex"]), x["ld"], fl(x["c"]), fl(x["grw"]), fl(x["feldw"]), fl(x["lim"]),
+    _eval(ctx, c, "Cases_hydro", "texture * Z * float * float * float * (float * float * float * float * float)", "hydro_check hypar_rows",
+          ["(%s%%char, %d%%Z, %s, %s, %s, (%s, %s, %s, %s, %s))" % (_tex(x["tex"]), x["ld"], fl(x["c"]), fl(x["grw"]), fl(x["stein"]), fl(x["feldw"]), fl(x["lim"]),
                                                              fl(x["prges"]), fl(x["normfk"]), fl(x["wred"])) for x in hy], 1500,
           lambda i, m: {"kind": "hydro-kernel", "differs": [n for j, n in enumerate(["FELDW", "LIM", "PRGES", "NORMFK", "WRED", "", "row-missing"]) if m >> j & 1],
                         "case": hy[i]})
